@@ -177,7 +177,7 @@ class VProcessBuilder:
             name = "?"
         V.W.events.append(("launch", name, jobid, owner.pid, vpid))
         V.HUB.spawn(f"job:{name}:{vpid}", p.body, proc=sp, kind="job")
-        if V.W.fine:
+        if V.W.fine is True:
             V.HUB.yield_point()
         return p
 
